@@ -31,8 +31,10 @@ def run(ctx, report):
     report.section("shared formatter", shared_formatter, ctx, report, ev)
     report.section("WebVTT formatter", webvtt_formatter, ctx, report, ev)
     report.section("MicroDVD", microdvd_writer, ctx, report, ev)
-    report.section("SAMI", sami_writer, ctx, report, ev)
-    report.section("emission", emission_rules, ctx, report)
+    report.structural_section("SAMI writer (symbolic form)", "R-DOC-CUES / R-DOC-TIMES on the folded SAMI documents (markup_writer_fold)",
+                              sami_writer, ctx, report, ev)
+    report.structural_section("emission templates", "R-DOC-CUES / R-DOC-TIMES / R-DOC-GRAMMAR on the folded documents of all writers",
+                              emission_rules, ctx, report)
     report.section("merge keys", merge_keys, ctx, report)
     from . import writer_doc_fold
     report.section("written documents", writer_doc_fold.run, ctx, report, ("cues", "times", "grammar"),
@@ -435,11 +437,8 @@ def emission_rules(ctx, report):
     t1, t2 = emission_template(report, f, r"^ --> $", "WebVTT timing line from this caption's start then end")
     report.check("_timestamp(" in t1 and "_timestamp(" in t2, "R-EMIT", f,
                  "both stamps go through the WebVTT formatter", [t1[:80], t2[:80]], "4")
-    uses = [n for n in walk_no_nested(f.node) if isinstance(n, ast.AugAssign) and "timespan" in src(n.value)]
-    in_loop = [n for n in walk_no_nested(f.node) if isinstance(n, ast.For) and any(u in list(walk_no_nested(n)) for u in uses)]
-    report.check(len(uses) == 1 and len(in_loop) == 1 and "layout_groups" in src(in_loop[0].iter), "R-EMIT", f,
-                 "every layout group of a caption is written with the same timespan string",
-                 [short(u) for u in uses], "4")
+    from . import webvtt_layout_fold
+    webvtt_layout_fold.run_cues(ctx, report, {"split": ("R-EMIT", "4")})
     # loops: one emission per caption, forward iteration, no skipping
     for path, q in WRITER_LOOPS:
         f = idx.get_function(path, q)
